@@ -17,7 +17,7 @@ META = {
     "C02": dict(
         technique="runtime monitor: history driver over the public transformation API; after every prefix a TreeSanitizer (structure + cache-coherence invariants at quiescent points) and a value oracle (dense einsum / fixed-index section)",
         text="Exploration over generated operation histories (reconfigure, forest, anneal, temper, slice/project/unslice, slice_and_reconfigure, sort/reset indices, copy with aliasing monitor, contract with changing options). Invariants are asserted only when the outermost public mutator has returned.",
-        note="Trusts the dense reference evaluator; histories are sampled, not enumerated. Forest variants run serially (parallel=False).",
+        note="Trusts the dense reference evaluator; histories are sampled, not enumerated. Forest / tempering variants run serially or on the thread-pool backend (parallel='threads'); process pools are not driven here.",
         ref="3/C02",
     ),
     "C03": dict(
@@ -39,7 +39,7 @@ META = {
         ref="3/C05",
     ),
     "C06": dict(
-        technique="runtime monitor: bijection check of slice_key over all slice numbers; every contract_slice vs the dense reference at that key; gather_slices / gen_output_chunks tiling oracle",
+        technique="runtime monitor: bijection check of slice_key over all slice numbers; every contract_slice vs the dense reference at that key; gather_slices / gen_output_chunks tiling oracle; the MPI route with simulated ranks (sum of the send buffers)",
         text="Exploration with exhaustive sub-spaces: all ordered removed-subsets of size <=3 for small index sets, all slice numbers when nslices<=256.",
         note="Trusts the dense reference evaluator.",
         ref="3/C06",
@@ -93,8 +93,8 @@ META = {
         ref="3/C14",
     ),
     "C15": dict(
-        technique="fault injection: the writer process is killed at every byte offset and every filesystem call boundary (LD_PRELOAD libc interposer scoped to the cache dir; python-level fallback); fresh reader processes classify the outcome",
-        text="Fault enumeration: exhaustive over byte offsets of the pickle and over filesystem events for new-entry / overwrite / split-directory cases.",
+        technique="fault injection: the writer process is killed at every byte offset and every filesystem call boundary (LD_PRELOAD libc interposer scoped to the cache dir; python-level fallback); fresh reader processes classify the outcome; an strace run of the same writer without the interposer audits that every content/namespace-changing syscall under the cache dir is one the interposer sees",
+        text="Fault enumeration: exhaustive over byte offsets of the pickle and over filesystem events for new-entry / overwrite / split-directory cases, with the cache directory on the filesystem of the system temp dir and on another one.",
         note="Kill = _exit at the syscall boundary (no torn page-cache writes below write(2) granularity; power loss not modelled).",
         ref="3/C15",
         level="fault_enumeration",
